@@ -193,7 +193,7 @@ func genTransport(g *GenCtx, emit func(head string, gos [][]string)) {
 	emit("obj=t", [][]string{{"c.hs", "c.ds", "c.rm", "c.dz"}, {"s.acc", "h.ds", "h.rm", "h.dp", "h.rm"}, {"sl:300", "c.c"}, {"sl:300", "s.c"}}) // deadlines release blocked reads
 	emit("obj=t", [][]string{{"s.c"}, {"c.hs"}, {"sl:3500", "c.c"}})                                                                             // dead server: handshake timeout
 	// a handshake that fails (dead server, short handshake timeout) while Close / Read / Handshake run
-	for _, d := range []int{38, 40, 42, 44} {
+	for _, d := range []int{36, 37, 38, 39, 40, 40, 41, 41, 42, 43, 44, 46} {
 		emit("obj=t hst=40", [][]string{{"s.c"}, {"c.hs"}, {"sl:20", "c.rm"}, {fmt.Sprintf("sl:%d", d), "c.c"}, {fmt.Sprintf("sl:%d", d+1), "c.rm"}, {fmt.Sprintf("sl:%d", d+2), "c.hs", "c.c"}})
 	}
 	n := 110
